@@ -343,7 +343,7 @@ func runGroup(g group) string {
 			seen[o] = true
 			// the feeder and the waiter may legitimately still be on their way out: give them a moment
 			after := runtime.NumGoroutine()
-			for i := 0; after > before && !leaked && i < 400; i++ {
+			for i := 0; after > before && !leaked && i < 4000; i++ { // up to ~2 s: a loaded machine must not look like a leak
 				if i < 50 {
 					runtime.Gosched()
 				} else {
